@@ -44,10 +44,11 @@ Inductive fifo_step (fx w : bool) (s s' : sys) : Prop :=
      | _ => pre = [] /\ rest = inb (inbox s) t
      end) ->
     (forall R, inb (inbox s') R = (if decide (R = t) then pre ++ rest else inb (inbox s) R) ++ msgs_to R os) ->
-    ph s' = ph s -> termq s' ⊆ termq s -> (e = ETerm -> t ∈ termq s) ->
+    ph s' = ph s -> termq s' ⊆ termq s -> (e = ETerm -> t ∈ termq s) -> hist s' = hist s ++ ob ->
     fifo_step fx w s s'
 | FS_other :
-    actors s' = actors s -> inbox s' = inbox s -> (ph s' = PRun -> ph s = PRun /\ termq s' = termq s) -> fifo_step fx w s s'.
+    actors s' = actors s -> inbox s' = inbox s -> (ph s' = PRun -> ph s = PRun /\ termq s' = termq s) -> hist s' = hist s ->
+    fifo_step fx w s s'.
 
 Lemma apply_step_fifo fx w s t a e ok ib sl tq pre rest s' :
   actors s !! t = Some a ->
@@ -68,7 +69,7 @@ Proof.
 Qed.
 
 Lemma root_consume_same w s o rest : actors (root_consume w s o rest) = actors s /\ inbox (root_consume w s o rest) = inbox s /\
-  (ph (root_consume w s o rest) = PRun -> termq (root_consume w s o rest) = termq s).
+  (ph (root_consume w s o rest) = PRun -> termq (root_consume w s o rest) = termq s) /\ hist (root_consume w s o rest) = hist s.
 Proof.
   unfold root_consume. destruct w; [done|]. by destruct o as [[|d] [k r|k r|[] t act|k t]|t].
 Qed.
@@ -94,7 +95,7 @@ Proof.
     intros R. by destruct (decide (R = t)) as [->|].
   - destruct (root_running s && _) eqn:Hc; [|done]. apply andb_true_iff in Hc as [Hrun _].
     unfold root_running in Hrun. apply bool_decide_eq_true in Hrun. destruct (rootq s) as [|o rest]; [done|].
-    injection H as <-. destruct (root_consume_same w s o rest) as (H1 & H2 & H3). apply FS_other; try done. intros Hp. split; [done|by apply H3].
+    injection H as <-. destruct (root_consume_same w s o rest) as (H1 & H2 & H3 & H4). apply FS_other; try done. intros Hp. split; [done|by apply H3].
   - destruct (root_running s && negb w && root_sets_empty s); [|done].
     destruct (set_empty (r_svc s)); injection H as <-; by apply FS_other.
   - destruct (ph s) eqn:Hp; try done; injection H as <-; apply FS_other; cbn; try done.
@@ -111,5 +112,5 @@ Proof.
   - destruct (root_running s && _) eqn:Hc; [|done]. apply andb_true_iff in Hc as [Hrun _].
     unfold root_running in Hrun. apply bool_decide_eq_true in Hrun.
     destruct (pick i (rootq s)) as [[[pre o] rest]|]; [|done]. destruct (none_from _ _ pre); [|done].
-    injection H as <-. destruct (root_consume_same w s o (pre ++ rest)) as (H1 & H2 & H3). apply FS_other; try done. intros Hp. split; [done|by apply H3].
+    injection H as <-. destruct (root_consume_same w s o (pre ++ rest)) as (H1 & H2 & H3 & H4). apply FS_other; try done. intros Hp. split; [done|by apply H3].
 Qed.
